@@ -124,21 +124,24 @@ def search(rep: C.Report, tier: str, broken):
         for Tscale, y2 in (((1.0, 0.3), (0.05, 2.0)) if tier == "quick" else ((1.0, 0.3), (0.05, 2.0), (30.0, 0.0), (1.0, 5.0))):
             bM, bN = bases[(N + int(y2 * 10)) % 4] if tier == "quick" else r.choice(bases)
             solver, grid, parts, clean = B.make_solver(M=4, N=N, basisM=bM, basisN=bN, Tscale=Tscale, y2=(y2,))
-            # a scalar whose vacuum mass squared changes sign across the wall (mildly negative near the symmetric side: E^2 stays
-            # positive at every node, |m^2| < p_min^2 with p_min = 2 T atanh(sin(pi/2N))): the defining integral uses E = sqrt(m^2 + p^2)
-            signchange = (N in (5, 7)) and y2 >= 2.0
-            if signchange:
-                pmin2 = (2 * Tscale * math.atanh(math.sin(math.pi / (2 * N)))) ** 2
-                mu2, lam_ = 0.6 * pmin2, 0.9
-                parts[0].msqVacuum = lambda f, mu2=mu2, lam_=lam_: -mu2 + lam_ * f.getField(0) ** 2
-                parts[0].msqDerivative = lambda f, lam_=lam_: np.transpose([2 * lam_ * f.getField(0)])
-                rep.count("particles with sign-changing vacuum mass squared")
             rescaled = (N + int(10 * y2)) % 2 == 1
             if rescaled:
                 # the same grid reached through a rescaling history: moments must be those of the new scale
                 grid.changeMomentumFalloffScale(Tscale * 7.3)
                 grid.changeMomentumFalloffScale(Tscale * r.choice((0.4, 2.5)))
                 rep.count("grids rescaled with changeMomentumFalloffScale")
+
+            # a scalar whose vacuum mass squared changes sign across the wall (mildly negative near the symmetric side: E^2 stays
+            # positive at every node, |m^2| < p_min^2 with p_min = 2 T atanh(sin(pi/2N))): the defining integral uses E = sqrt(m^2 + p^2)
+            # (p_min is that of the FINAL momentum scale: the bound is evaluated after any rescaling of the grid; a NaN from E^2 < 0 made
+            # eight comparisons of this family pass vacuously until batch 10)
+            signchange = (N in (5, 7)) and y2 >= 2.0
+            if signchange:
+                pmin2 = (2 * float(grid.momentumFalloffT) * math.atanh(math.sin(math.pi / (2 * N)))) ** 2
+                mu2, lam_ = 0.6 * pmin2, 0.9
+                parts[0].msqVacuum = lambda f, mu2=mu2, lam_=lam_: -mu2 + lam_ * f.getField(0) ** 2
+                parts[0].msqDerivative = lambda f, lam_=lam_: np.transpose([2 * lam_ * f.getField(0)])
+                rep.count("particles with sign-changing vacuum mass squared")
 
             def to_solver_basis(dFcard, solver=solver, grid=grid):
                 """the deviation is specified by its grid values; the solver takes coefficients in ITS basis"""
@@ -169,7 +172,7 @@ def search(rep: C.Report, tier: str, broken):
                     rep.case(key=(N, Tscale, y2, nm, da, db, bM, bN),
                              sample={"N": N, "moment": nm, "deg": [da, db], "got": got.tolist(), "exact": want} if len(rep.samples) < 3 else None)
                     rep.count(f"search {nm}")
-                    if np.max(np.abs(got - want)) > 1e-9 * sc:
+                    if not np.max(np.abs(got - want)) <= 1e-9 * sc:      # (written so that a NaN fails)
                         rep.violation(f"{nm} is not the exact momentum integral on the exactness family",
                                       {"N": N, "momentumFalloffT": grid.momentumFalloffT, "constructed_with": Tscale, "rescaled_by_changeMomentumFalloffScale": rescaled, "y2": y2, "sign_changing_msq": signchange, "moment": nm, "basisM": bM, "basisN": bN, "poly_rz": ca, "poly_rp": cb,
                                        "got": got.tolist(), "exact": want}, finding_key=f"C13:{nm}")
@@ -177,7 +180,7 @@ def search(rep: C.Report, tier: str, broken):
                     dF2 = np.array([r.uniform(-1, 1) for _ in range(3 * n * n)]).reshape(1, 3, n, n)
                     a1 = getattr(solver.getDeltas(to_solver_basis(dF + 2.5 * dF2)).Deltas, nm).coefficients
                     a2 = got[None] + 2.5 * getattr(solver.getDeltas(to_solver_basis(dF2)).Deltas, nm).coefficients
-                    if np.max(np.abs(a1 - a2)) > 1e-10 * (np.max(np.abs(a1)) + sc):
+                    if not np.max(np.abs(a1 - a2)) <= 1e-10 * (np.max(np.abs(a1)) + sc):
                         rep.violation(f"{nm} is not linear in the deviation", {"N": N, "moment": nm}, finding_key=f"C13:linear:{nm}")
             finally:
                 clean()
